@@ -277,11 +277,25 @@ def Book.ok (b : Book) (t : Task) : Book :=
 
 def Book.fail (b : Book) (t : Task) : Book := { b with errors := (t.act, t.rel) :: b.errors }
 
-/-- one task of the parallel section, run to completion -/
-def execTask (cfg : Cfg) (st : Exec) (t : Task) : Exec :=
-  match perform cfg st.w t with
-  | some w' => ⟨w', st.b.ok t⟩
-  | none => ⟨st.w, st.b.fail t⟩
+/-- A fault plan: for each task either no fault (`none`) or "the operation fails, leaving
+    `g` at the task's own path" (`some g`; `g = none` means nothing is left there). Faults hit
+    file-system operations only, so nothing can fail in a dry run or in a skip. -/
+abbrev Faults := Task → Option (Option DNode)
+
+def noFaults : Faults := fun _ => none
+
+def garbageAt (dst : Map DNode) (p : Path) : Option DNode → Map DNode
+  | some g => dst.set p g
+  | none => dst.erase p
+
+/-- one task of the parallel section, run to completion under a fault plan -/
+def execTask (cfg : Cfg) (flt : Faults) (st : Exec) (t : Task) : Exec :=
+  match (if cfg.dryRun || t.act == .skip then none else flt t) with
+  | some g => ⟨{ st.w with dst := garbageAt st.w.dst t.rel g }, st.b.fail t⟩
+  | none =>
+    match perform cfg st.w t with
+    | some w' => ⟨w', st.b.ok t⟩
+    | none => ⟨st.w, st.b.fail t⟩
 
 structure Result where
   refused  : Bool
@@ -307,19 +321,23 @@ def plan (cfg : Cfg) (scan : List SEntry) (dst : Map DNode) : List Task :=
   let tasks := filtered.map (planEntry cfg dst)
   if cfg.delete then tasks ++ planDeletions filtered scan dst else tasks
 
-/-- `SyncEngine::sync` followed by the exit-status decision of `main` -/
-def run (cfg : Cfg) (scan : List SEntry) (dst : Map DNode) (nextIno : Nat) : Result :=
+/-- `SyncEngine::sync` followed by the exit-status decision of `main`, under a fault plan -/
+def runF (cfg : Cfg) (flt : Faults) (scan : List SEntry) (dst : Map DNode) (nextIno : Nat) : Result :=
   let tasks := plan cfg scan dst
   let dels := (tasks.filter (·.act == .delete)).length
   if guardRefuses cfg dels dst.length then
     { refused := true, aborted := false, dst := dst, tasks := tasks, created := 0, updated := 0,
       skipped := 0, deleted := 0, bytes := 0, events := [], errors := [], exit := 1 }
   else
-    let st := tasks.foldl (execTask cfg) (initExec dst nextIno)
+    let st := tasks.foldl (execTask cfg flt) (initExec dst nextIno)
     let aborted := decide (0 < cfg.maxErrors) && decide (cfg.maxErrors ≤ st.b.errors.length)
     { refused := false, aborted := aborted, dst := st.w.dst, tasks := tasks,
       created := st.b.created, updated := st.b.updated, skipped := st.b.skipped, deleted := st.b.deleted,
       bytes := st.w.bytes, events := st.b.events.reverse, errors := st.b.errors.reverse,
       exit := if st.b.errors.isEmpty then 0 else 1 }
+
+/-- the fault-free run -/
+def run (cfg : Cfg) (scan : List SEntry) (dst : Map DNode) (nextIno : Nat) : Result :=
+  runF cfg noFaults scan dst nextIno
 
 end SyModel.Engine
